@@ -183,4 +183,35 @@ pub fn kh_euler_jones(s: &mut Src) -> R {
     ob!(chi == jones_polynomial(&l), "graded-Euler-characteristic(Kh)==Jones");
     Ok(())
 }
-crate::harness_table!(COB: cob_closed_eval [unwind 8], cob_open_part_eval [unwind 8], cob_lc_inv [unwind 4], kh_canon_cycles [unwind 4], kh_dd_zero_q [unwind 4], kh_euler_jones [unwind 4]);
+// C06 (BOUNDED, sampled): the s-type invariant behaves as a knot invariant on a fixed list of diagrams: it does not change when the PD code is
+// relabelled by an injection or its crossings are listed in another order, the reduced and the unreduced computation agree, and the mirror
+// image has the negative value.  c in {2, 3}.
+pub fn kh_ss_invariance(s: &mut Src) -> R {
+    use yui_link::Link;
+    use yui_kh::kh::ss_invariant;
+    let codes: [&[[usize; 4]]; 6] = [
+        &[[1,4,2,5],[3,6,4,1],[5,2,6,3]],
+        &[[4,2,5,1],[8,6,1,5],[6,3,7,4],[2,7,3,8]],
+        &[[1,6,2,7],[3,8,4,9],[5,10,6,1],[7,2,8,3],[9,4,10,5]],
+        &[[1,4,2,5],[3,8,4,9],[5,10,6,1],[9,6,10,7],[7,2,8,3]],
+        &[[1,4,2,5],[7,10,8,11],[3,9,4,8],[9,3,10,2],[5,12,6,1],[11,6,12,7]],
+        &[[4,2,5,1],[8,4,9,3],[12,9,1,10],[10,5,11,6],[6,11,7,12],[2,8,3,7]],
+    ];
+    let which = s.small(0, 5) as usize;
+    let c = s.small(2, 3);
+    let rot = s.small(0, 5) as usize;
+    let relabel = s.u64();
+    reach!();
+    let n_x = codes[which].len();
+    let mut map: Vec<usize> = (0..41).collect();
+    let mut st = relabel | 1;
+    for k in (1..41).rev() { st ^= st << 13; st ^= st >> 7; st ^= st << 17; map.swap(k, (st % (k as u64 + 1)) as usize); }
+    let l0 = Link::from_pd_code(codes[which].iter().cloned());
+    let l1 = Link::from_pd_code((0..n_x).map(|k| codes[which][(k + rot) % n_x].map(|e| map[e])));
+    let s0 = ss_invariant(&l0, &c, true);
+    ob!(ss_invariant(&l0, &c, false) == s0, "ss_invariant::reduced==unreduced");
+    ob!(ss_invariant(&l1, &c, true) == s0 && ss_invariant(&l1, &c, false) == s0, "ss_invariant::independent-of-labels-and-crossing-order");
+    ob!(ss_invariant(&l0.mirror(), &c, true) == -s0 && ss_invariant(&l1.mirror(), &c, false) == -s0, "ss_invariant::mirror-negates");
+    Ok(())
+}
+crate::harness_table!(COB: cob_closed_eval [unwind 8], cob_open_part_eval [unwind 8], cob_lc_inv [unwind 4], kh_canon_cycles [unwind 4], kh_dd_zero_q [unwind 4], kh_euler_jones [unwind 4], kh_ss_invariance [unwind 4]);
